@@ -644,3 +644,324 @@ Definition reachable (s : state) : Prop := exists tr, run P init tr = Some s.
 
 Theorem reachable_inv s : reachable s -> Inv s.
 Proof. intros [tr H]. eapply run_inv; [apply init_inv|exact H]. Qed.
+
+(** * Main theorems *)
+
+(** At most one owner of the semaphore permit (a task inside begin/holding a TransactionPermit/
+    inside commit or rollback, or a detached rollback task), and none while a permit is available. *)
+Theorem mutual_exclusion s o1 o2 :
+  reachable s -> owns s o1 = true -> owns s o2 = true -> o1 = o2.
+Proof.
+  intros Hr H1 H2. apply reachable_inv in Hr.
+  destruct (owner_facts _ _ (inv_own _ Hr) H1) as (_ & [_ Hu] & _). symmetry. auto.
+Qed.
+
+Theorem available_means_unowned s o : reachable s -> avail s = true -> owns s o = false.
+Proof.
+  intros Hr Ha. apply reachable_inv in Hr. pose proof (inv_own _ Hr) as Ho.
+  unfold own_ok in Ho. rewrite Ha in Ho. apply Ho.
+Qed.
+
+(** The pending writes in the transaction slot are exactly the writes issued so far by the one
+    task that holds the TransactionPermit (or are about to be rolled back by the detached task). *)
+Theorem slot_belongs_to_owner s p :
+  reachable s -> slot s = Some p ->
+  (exists i k, tpc (tasks s i) = PHold k /\ p = firstn k (writes (P i)))
+  \/ (exists i, trb (tasks s i) = RbStart).
+Proof.
+  intros Hr Hs. apply reachable_inv in Hr. pose proof (inv_own _ Hr) as Ho. unfold own_ok in Ho.
+  destruct (avail s).
+  - destruct Ho as (_ & _ & H). congruence.
+  - destruct Ho as [[i|i] [_ Hsl]]; unfold slot_ok in Hsl.
+    + destruct (tpc (tasks s i)) eqn:E; try contradiction; try (destruct Hsl; congruence); try congruence.
+      destruct Hsl as [H1 _]. left. exists i, k. split; congruence.
+    + destruct (trb (tasks s i)) eqn:E; try contradiction; [right; eauto|congruence].
+Qed.
+
+Lemma log_release s : log (release s) = log s.
+Proof. unfold release. destruct (queue s); reflexivity. Qed.
+Lemma db_release s : db (release s) = db s.
+Proof. unfold release. destruct (queue s); reflexivity. Qed.
+
+Lemma log_step s l s' : step P s l = Some s' -> log s' = log s ++ commit_mark s l.
+Proof.
+  intros H. destruct l as [i|i|i]; unfold step in H; cbn [commit_mark].
+  - destruct (tpc (tasks s i)) eqn:Hi; try discriminate.
+    + destruct (avail s); inversion H; subst; cbn; rewrite app_nil_r; reflexivity.
+    + destruct (slot s); inversion H; subst; rewrite ?log_release; cbn; rewrite app_nil_r; reflexivity.
+    + destruct (nth_error (writes (P i)) k); [|destruct (pfin (P i))]; try destruct (slot s);
+        inversion H; subst; cbn; rewrite app_nil_r; reflexivity.
+    + inversion H; subst. rewrite log_release. reflexivity.
+    + inversion H; subst. rewrite log_release. cbn. rewrite app_nil_r. reflexivity.
+  - rewrite app_nil_r. destruct (tpc (tasks s i)); inversion H; subst; rewrite ?log_release; reflexivity.
+  - rewrite app_nil_r. destruct (trb (tasks s i)); inversion H; subst; rewrite ?log_release; reflexivity.
+Qed.
+
+Lemma log_run tr : forall s s', run P s tr = Some s' -> log s' = log s ++ commits_of P s tr.
+Proof.
+  induction tr as [|l r IH]; intros s s' H; cbn in *.
+  - inversion H; subst. rewrite app_nil_r. reflexivity.
+  - destruct (step P s l) as [s1|] eqn:E; [|discriminate].
+    rewrite (IH _ _ H), (log_step _ _ _ E), app_assoc. reflexivity.
+Qed.
+
+(** Serializability: after any trace (any interleaving, any cancellation points) the committed
+    database is the result of applying, one after another and in commit order, exactly the
+    transactions whose commit took effect. *)
+Theorem serializable tr s :
+  run P init tr = Some s -> db s = apply_all P (commits_of P init tr).
+Proof.
+  intros H. pose proof (run_inv _ _ _ init_inv H) as HI.
+  destruct (inv_log _ HI) as (_ & _ & Hdb). rewrite Hdb, (log_run _ _ _ H). reflexivity.
+Qed.
+
+(** The commit order has no repetitions and consists exactly of the tasks that ended with
+    outcome "committed"; these are tasks whose program ends with a commit. *)
+Theorem committed_exactly tr s :
+  run P init tr = Some s ->
+  NoDup (commits_of P init tr) /\
+  forall i, In i (commits_of P init tr) <-> tpc (tasks s i) = PDone OCommitted.
+Proof.
+  intros H. pose proof (run_inv _ _ _ init_inv H) as HI.
+  destruct (inv_log _ HI) as (Hnd & Hl & _). rewrite (log_run _ _ _ H) in *. cbn in *.
+  split; [exact Hnd|]. intros i. split; [apply Hl|].
+  intros E. pose proof (inv_pc _ HI i) as Hc. rewrite E in Hc. cbn in Hc.
+  rewrite (log_run _ _ _ H) in Hc. apply Hc.
+Qed.
+
+(** Outcomes are faithful to the programs, and the two panics and the TransactionMissing
+    error of the store API are unreachable. *)
+Theorem outcome_faithful s i o :
+  reachable s -> tpc (tasks s i) = PDone o ->
+  match o with
+  | OCommitted => pfin (P i) = FCommit
+  | ORolledBack => pfin (P i) = FRollback
+  | ODropped => pfin (P i) = FDrop
+  | OError => pfin (P i) = FError
+  | OCancelled => True
+  | OPanic => False
+  end.
+Proof.
+  intros Hr E. apply reachable_inv in Hr. pose proof (inv_pc _ Hr i) as Hc. rewrite E in Hc.
+  destruct o; cbn in Hc; tauto.
+Qed.
+
+(** Aborted transactions leave no trace: with keys distinct across tasks, no write of a task that
+    did not commit (rolled back, dropped its permit, failed, was cancelled anywhere, or is still
+    running) is in the committed database. *)
+Theorem aborted_leave_no_trace s i w :
+  reachable s ->
+  (forall a b k, In k (writes (P a)) -> In k (writes (P b)) -> a = b) ->
+  tpc (tasks s i) <> PDone OCommitted -> In w (writes (P i)) -> ~ In w (db s).
+Proof.
+  intros Hr Hd Hn Hw Hin. apply reachable_inv in Hr.
+  destruct (inv_log _ Hr) as (_ & Hl & Hdb). rewrite Hdb in Hin. unfold apply_all in Hin.
+  apply in_flat_map in Hin. destruct Hin as [j [Hj Hwj]].
+  assert (j = i) by (eapply Hd; eauto). subst. apply Hn, Hl, Hj.
+Qed.
+
+(** ... and they do not keep anything: once no task and no rollback task is in flight, the permit
+    is available again and the transaction slot is empty. *)
+Theorem quiescent_free s :
+  reachable s ->
+  (forall i, active_pc (tpc (tasks s i)) = false) ->
+  (forall i, active_rb (trb (tasks s i)) = false) ->
+  (forall i, tpc (tasks s i) <> PWait) ->
+  avail s = true /\ slot s = None.
+Proof.
+  intros Hr Hp Hb Hw. apply reachable_inv in Hr. pose proof (inv_own _ Hr) as Ho.
+  unfold own_ok in Ho. destruct (avail s).
+  - split; [reflexivity|apply Ho].
+  - destruct Ho as [[i|i] [[H _] _]]; unfold owns in H; [rewrite Hp in H|rewrite Hb in H]; discriminate.
+Qed.
+
+(** No permanent block: whenever a task waits for the semaphore, the permit has exactly one owner
+    (not a waiter) and that owner has an enabled step that is not a cancellation. *)
+Lemma owner_enabled s o : owns s o = true -> exists s', step P s (olabel o) = Some s'.
+Proof.
+  destruct o as [i|i]; unfold owns, olabel, step; intros H.
+  - destruct (tpc (tasks s i)); try discriminate.
+    + destruct (slot s); eauto.
+    + destruct (nth_error (writes (P i)) k); [|destruct (pfin (P i))]; destruct (slot s); eauto.
+    + eauto.
+    + eauto.
+  - destruct (trb (tasks s i)); try discriminate; eauto.
+Qed.
+
+Theorem no_permanent_block s i :
+  reachable s -> tpc (tasks s i) = PWait ->
+  exists o s', owns s o = true /\ is_cancel (olabel o) = false /\ step P s (olabel o) = Some s'.
+Proof.
+  intros Hr Hw. apply reachable_inv in Hr. pose proof (inv_own _ Hr) as Ho.
+  destruct (inv_q _ Hr) as [_ Hq]. apply Hq in Hw.
+  unfold own_ok in Ho. destruct (avail s).
+  - destruct Ho as (_ & H & _). rewrite H in Hw. destruct Hw.
+  - destruct Ho as [o [[H _] _]]. destruct (owner_enabled _ _ H) as [s' Hs].
+    exists o, s'. repeat split; auto. destruct o; reflexivity.
+Qed.
+
+(** A task that has not finished can always move on by itself unless it waits for the permit
+    (then [no_permanent_block] applies); a spawned rollback task can always move on. *)
+Theorem task_enabled s i :
+  reachable s -> (forall o, tpc (tasks s i) <> PDone o) -> tpc (tasks s i) <> PWait ->
+  exists s', step P s (LStep i) = Some s'.
+Proof.
+  intros _ Hd Hw. unfold step. destruct (tpc (tasks s i)) eqn:E.
+  - destruct (avail s); eauto.
+  - congruence.
+  - destruct (slot s); eauto.
+  - destruct (nth_error (writes (P i)) k); [|destruct (pfin (P i))]; destruct (slot s); eauto.
+  - eauto.
+  - eauto.
+  - exfalso. eapply Hd; eauto.
+Qed.
+
+(** * Termination measure: every step strictly decreases the remaining work *)
+Lemma tm_release s j : queue_ok s -> t_measure P (release s) j <= t_measure P s j.
+Proof.
+  intros [_ Hq]. unfold release. destruct (queue s) as [|k q] eqn:Q.
+  - apply le_n.
+  - assert (Hk : tpc (tasks s k) = PWait) by (apply Hq; left; reflexivity).
+    unfold t_measure. autorewrite with tx. destruct (Nat.eqb_spec j k); [subst|apply le_n].
+    rewrite Hk. cbn [pc_measure]. lia.
+Qed.
+
+Ltac mfin :=
+  unfold t_measure, spawn_rb, dequeue; autorewrite with tx; rewrite ?Nat.eqb_refl;
+  try match goal with |- context [Nat.eqb ?x ?i] => destruct (Nat.eqb_spec x i); [subst|] end;
+  repeat match goal with H : tpc (tasks _ _) = _ |- _ => rewrite H end;
+  repeat match goal with H : trb (tasks _ _) = _ |- _ => rewrite H end;
+  cbn [pc_measure rb_measure]; try lia.
+
+Ltac meas := split; [intros ?j|]; mfin.
+
+Ltac meas_rel Hpre :=
+  split;
+  [intros ?j; eapply Nat.le_trans; [apply tm_release; apply (pr_q _ Hpre)|]
+  |eapply Nat.le_lt_trans; [apply tm_release; apply (pr_q _ Hpre)|]]; mfin.
+
+Lemma step_measure s l s' :
+  Inv s -> step P s l = Some s' ->
+  (forall j, t_measure P s' j <= t_measure P s j)
+  /\ t_measure P s' (actor l) < t_measure P s (actor l).
+Proof.
+  intros HI H. destruct l as [i|i|i]; unfold step in H; cbn [actor].
+  - destruct (tpc (tasks s i)) as [| | |k|p|p|o] eqn:Hi.
+    + destruct (avail s) eqn:Ha; inversion H; subst; clear H; meas.
+    + discriminate.
+    + assert (Hown : owns s (OwT i) = true) by (apply owner_T; auto).
+      destruct (owner_facts _ _ (inv_own _ HI) Hown) as (Hav & _ & Hsl).
+      unfold slot_ok in Hsl. rewrite Hi in Hsl. rewrite Hsl in H. inversion H; subst; clear H. meas.
+    + assert (Hown : owns s (OwT i) = true) by (apply owner_T; eauto).
+      destruct (owner_facts _ _ (inv_own _ HI) Hown) as (Hav & _ & Hsl).
+      unfold slot_ok in Hsl. rewrite Hi in Hsl. destruct Hsl as [Hsl Hk]. rewrite Hsl in H.
+      destruct (nth_error (writes (P i)) k) as [w|] eqn:Hn.
+      * assert (k < length (writes (P i))) by (apply nth_error_Some; congruence).
+        inversion H; subst; clear H. meas.
+      * destruct (pfin (P i)) eqn:Hf; inversion H; subst; clear H; meas.
+    + inversion H; subst; clear H. pose proof (prerel_commit _ _ _ HI Hi) as Hpre. meas_rel Hpre.
+    + inversion H; subst; clear H.
+      assert (Hown : owns s (OwT i) = true) by (apply owner_T; eauto 6).
+      destruct (owner_facts _ _ (inv_own _ HI) Hown) as (Hav & _ & Hsl).
+      unfold slot_ok in Hsl. rewrite Hi in Hsl. destruct Hsl as [Hsl _].
+      pose proof (inv_pc _ HI i) as Hc. rewrite Hi in Hc.
+      pose proof (prerel_task _ _ ORolledBack HI Hown Hsl Hc) as Hpre. meas_rel Hpre.
+    + discriminate.
+  - destruct (tpc (tasks s i)) as [| | |k|p|p|o] eqn:Hi; inversion H; subst; clear H.
+    + meas.
+    + meas.
+    + assert (Hown : owns s (OwT i) = true) by (apply owner_T; auto).
+      destruct (owner_facts _ _ (inv_own _ HI) Hown) as (Hav & _ & Hsl).
+      unfold slot_ok in Hsl. rewrite Hi in Hsl.
+      pose proof (prerel_task _ _ OCancelled HI Hown Hsl I) as Hpre. meas_rel Hpre.
+    + meas.
+    + meas.
+    + meas.
+  - destruct (trb (tasks s i)) eqn:Hi; inversion H; subst; clear H.
+    + meas.
+    + pose proof (prerel_rb _ _ HI Hi) as Hpre. meas_rel Hpre.
+Qed.
+
+Definition sum (f : nat -> nat) (l : list nat) : nat := fold_right (fun i acc => f i + acc) 0 l.
+
+Lemma sum_le f g l : (forall j, f j <= g j) -> sum f l <= sum g l.
+Proof. intros H. unfold sum. induction l as [|a l IH]; cbn [fold_right]; [lia|]. specialize (H a). lia. Qed.
+
+Lemma sum_lt f g l i :
+  (forall j, f j <= g j) -> In i l -> f i < g i -> sum f l < sum g l.
+Proof.
+  intros H Hin Hi. induction l as [|a l IH]; [destruct Hin|].
+  unfold sum in *. cbn [fold_right]. destruct Hin as [E|Hin].
+  - subst. pose proof (sum_le f g l H) as Hs. unfold sum in Hs. lia.
+  - specialize (IH Hin). specialize (H a). lia.
+Qed.
+
+(** Every step of a task below [n] (program step, cancellation or rollback-task step) strictly
+    decreases [measure]; so every trace over [n] tasks is finite and, by [no_permanent_block] and
+    [task_enabled], can only end when all of them are done. *)
+Theorem step_decreases s l s' n :
+  reachable s -> step P s l = Some s' -> actor l < n -> measure P n s' < measure P n s.
+Proof.
+  intros Hr H Hn. apply reachable_inv in Hr. destruct (step_measure _ _ _ Hr H) as [Hle Hlt].
+  unfold measure. apply (sum_lt (t_measure P s') (t_measure P s) (seq 0 n) (actor l)); auto.
+  apply in_seq. lia.
+Qed.
+
+Theorem trace_length_bounded tr : forall s s' n,
+  reachable s -> run P s tr = Some s' -> Forall (fun l => actor l < n) tr ->
+  length tr + measure P n s' <= measure P n s.
+Proof.
+  induction tr as [|l r IH]; intros s s' n Hr H Hf; cbn in *.
+  - inversion H; subst. lia.
+  - destruct (step P s l) as [s1|] eqn:E; [|discriminate]. inversion Hf; subst.
+    assert (Hr1 : reachable s1).
+    { destruct Hr as [t Ht]. exists (t ++ [l]). clear - Ht E.
+      revert Ht. generalize init. induction t as [|a t IHt]; intros s0 Ht; cbn in *.
+      - inversion Ht; subst. rewrite E. reflexivity.
+      - destruct (step P s0 a); [apply IHt; exact Ht|discriminate]. }
+    pose proof (step_decreases _ _ _ n Hr E H2). specialize (IH _ _ n Hr1 H H3). lia.
+Qed.
+
+End Protocol.
+
+(** * Non-vacuity: a concrete run that exercises waiting, hand-off, commit, a cancelled holder,
+      the detached rollback task, and satisfies the hypotheses of the theorems above. *)
+Definition exP : nat -> prog := fun i =>
+  match i with
+  | 0 => {| writes := [1; 2]%N; pfin := FCommit |}
+  | 1 => {| writes := [3]%N; pfin := FDrop |}
+  | 2 => {| writes := [4]%N; pfin := FCommit |}
+  | _ => {| writes := []; pfin := FRollback |}
+  end.
+Definition ex_tr : list label :=
+  [LStep 0; LStep 1; LStep 2; LStep 0; LStep 0; LStep 0; LStep 0; LStep 0;
+   LStep 1; LStep 1; LCancel 1; LRb 1; LRb 1; LStep 2; LStep 2; LStep 2; LStep 2].
+
+Example ex_db : option_map db (run exP init ex_tr) = Some [1; 2; 4]%N.
+Proof. vm_compute. reflexivity. Qed.
+Example ex_commits : commits_of exP init ex_tr = [0; 2].
+Proof. vm_compute. reflexivity. Qed.
+Example ex_reachable_waiting :
+  exists s, reachable exP s /\ tpc (tasks s 1) = PWait /\ owns s (OwT 0) = true.
+Proof.
+  destruct (run exP init [LStep 0; LStep 1]) as [s|] eqn:E; [|vm_compute in E; discriminate].
+  exists s. split; [exists [LStep 0; LStep 1]; exact E|].
+  vm_compute in E. inversion E; subst. split; reflexivity.
+Qed.
+Example ex_reachable_rb_owner :
+  exists s, reachable exP s /\ owns s (OwR 1) = true /\ tpc (tasks s 2) = PWait /\ slot s = Some [3%N].
+Proof.
+  destruct (run exP init (firstn 11 ex_tr)) as [s|] eqn:E; [|vm_compute in E; discriminate].
+  exists s. split; [exists (firstn 11 ex_tr); exact E|].
+  vm_compute in E. inversion E; subst. repeat split; reflexivity.
+Qed.
+Example ex_keys_distinct :
+  forall a b k, In k (writes (exP a)) -> In k (writes (exP b)) -> a = b.
+Proof.
+  intros a b k.
+  destruct a as [|[|[|a]]]; destruct b as [|[|[|b]]]; cbn; intros Ha Hb;
+    try reflexivity; try contradiction;
+    repeat match goal with H : _ \/ _ |- _ => destruct H end; try contradiction; subst; try discriminate.
+Qed.
+Example ex_actors_bounded : Forall (fun l => actor l < 3) ex_tr.
+Proof. repeat constructor. Qed.
